@@ -196,7 +196,28 @@ def param_vector(spec, mact):
     return v
 
 
-def explore(ctx, oracles, max_states=None, record_graph=False, action_rep="object", root_state=None):
+def plan_path_keys(ctx):
+    """state keys along the reference model's closure plan (every draw succeeding), by generative steps"""
+    from .seams import draw_values as _dv
+    ms, plan = ctx.model.closure_plan()
+    idx = {}
+    for i, m in enumerate(ctx.mactions):
+        if m is not None:
+            idx.setdefault((m["type"], m["name"], tuple(m["target"])), i)
+    ctx.env.reset()
+    s = ctx.env.current_state
+    keys = [s.tensor.tobytes()]
+    for act in plan:
+        i = idx.get((act["type"], act["name"], tuple(act["target"])))
+        if i is None:
+            break
+        ctx.seam.arm(_dv(act["prob"])["below"])
+        s, _, _, _, _ = ctx.env.generative_step(s, ctx.actions[i])
+        keys.append(s.tensor.tobytes())
+    return set(keys)
+
+
+def explore(ctx, oracles, max_states=None, record_graph=False, action_rep="object", root_state=None, expand_only=None):
     """BFS over the implementation's reachable states. Returns dict with counts (and the graph).
     action_rep="param": every action is handed to a parameterised-action environment as its parameter
     vector (actions without a vector are skipped), so the decode path of that space is inside the loop."""
@@ -220,13 +241,13 @@ def explore(ctx, oracles, max_states=None, record_graph=False, action_rep="objec
     else:
         reps = list(ctx.actions)
     try:
-        return _explore(ctx, oracles, max_states, record_graph, reps, root_state)
+        return _explore(ctx, oracles, max_states, record_graph, reps, root_state, expand_only)
     finally:
         if action_rep == "param":
             ctx.env = ctx.env_object
 
 
-def _explore(ctx, oracles, max_states, record_graph, reps, root_state=None):
+def _explore(ctx, oracles, max_states, record_graph, reps, root_state=None, expand_only=None):
     env, seam, model, layout = ctx.env, ctx.seam, ctx.model, ctx.layout
     if not ctx.rows_ok:
         raise HarnessError(f"{ctx.name}: initial tensor rows do not carry the scenario's addresses "
@@ -295,7 +316,9 @@ def _explore(ctx, oracles, max_states, record_graph, reps, root_state=None):
                                                  "next_status": [list(x) for x in tr.ms2]},
                                         "model": {"success": bool(exp.success), "value": float(exp.value),
                                                   "next_status": [list(x) for x in exp.state]}})
-                if tr.new_state:
+                if tr.new_state and expand_only is not None and tr.key2 not in expand_only:
+                    pass                 # one-step deviation from the reference path: executed and checked, not expanded
+                elif tr.new_state:
                     if max_states is not None and len(seen) >= max_states:
                         capped = True
                     else:
